@@ -61,11 +61,11 @@ pub enum Val {
             last_modified: Option<i64>, etag: Option<Vec<u8>>, deltas: Vec<(u64, Vec<u8>)> },
 }
 
-/// Coq term for a byte string. Long arithmetic runs (b[i+1] = b[i] + d mod 256; the big test contents are
-/// generated that way) are printed as `arith start d len` (coq/C28/Spec.v) because coqc cannot type-check
-/// list literals with tens of thousands of elements.
+/// Coq term for a byte string: a list literal; long arithmetic runs (b[i+1] = b[i] + d mod 256; the big test
+/// contents are generated that way) are written `arith start d len` (coq/C28/Values.v) because coqc cannot
+/// type-check list literals with tens of thousands of elements.
 pub fn cb(b: &[u8]) -> String {
-    if b.len() < 512 { return coq_bytes(b) }
+    fn lit(b: &[u8], parts: &mut Vec<String>) { parts.push(coq_bytes(b)); }
     let mut parts: Vec<String> = Vec::new();
     let mut lit_start = 0usize;
     let mut i = 0usize;
@@ -74,8 +74,8 @@ pub fn cb(b: &[u8]) -> String {
         let mut j = i + 1;
         while j + 1 < b.len() && b[j + 1].wrapping_sub(b[j]) == d { j += 1; }
         let run = j - i + 1;
-        if run >= 256 {
-            if lit_start < i { parts.push(coq_bytes(&b[lit_start..i])); }
+        if run >= 1024 {
+            if lit_start < i { lit(&b[lit_start..i], &mut parts); }
             parts.push(format!("arith {} {} {}", b[i], d, run));
             i = j + 1;
             lit_start = i;
@@ -83,7 +83,7 @@ pub fn cb(b: &[u8]) -> String {
             i = j;
         }
     }
-    if lit_start < b.len() { parts.push(coq_bytes(&b[lit_start..])); }
+    if lit_start < b.len() { lit(&b[lit_start..], &mut parts); }
     if parts.is_empty() { return "[]".into() }
     if parts.len() == 1 && parts[0].starts_with('[') { return parts.pop().unwrap() }
     format!("({})", parts.join(" ++ "))
